@@ -397,7 +397,7 @@ Section ManagerProofs.
   Lemma step_mag_le w o j : sync_op o = true ->
     mag_le (data (get_db w j)) (data (get_db (step w o) j)).
   Proof.
-    intro Hs. unfold Manager.step. destruct o as [i|i x|i s|i order|i s|i s|i x|i s|i s|i]; try discriminate Hs; cbn [step_ret].
+    intro Hs. unfold Manager.step. destruct o as [i|i x|i s|i order|i s|i s|i x|i s|i s|i|i x]; try discriminate Hs; cbn [step_ret].
     - (* backup *)
       destruct (um_backup (uid_of i) dict_name (get_db w i)) as [d f] eqn:E. cbn [fst].
       change (get_db (set_snap (set_db w i d) i f) j) with (get_db (set_db w i d) j).
@@ -426,6 +426,8 @@ Section ManagerProofs.
       apply mag_le_refl.
     - (* foreign /user_id: metadata only *)
       cbn [fst]. apply set_db_mag_le. apply mag_le_refl.
+    - (* a scratch db left behind: no dictionary changes *)
+      destruct (nth x (w_snaps w) None); apply mag_le_refl.
   Qed.
 
   Theorem history_never_loses ops : forall w j, forallb sync_op ops = true ->
